@@ -126,8 +126,28 @@ def run_transform(ctx, tname):
         if any(np.ptp(r) < 1e-9 for r in v):
             ctx.count('rejected_degenerate')
             return
-    if tname == 'geodesic':
-        pass
+    if tname == 'geodesic' and rng.integers(3) == 0:
+        # integer-valued RDMs whose range r has an inexact reciprocal (r * (1/r) != 1 in floating point, e.g. 49): the
+        # maximal entry must still be recognised as maximal, whatever way the normalisation is computed
+        bad = [r for r in range(2, 400) if r * (1.0 / r) != 1.0]
+        n = meta['n_cond']
+        iu0 = np.triu_indices(n, 1)
+        for row in v:
+            r = int(gen.pick(rng, bad))
+            if n >= 4 and rng.integers(2):
+                # all other dissimilarities large (> 0.6 of the range): every detour around the maximal edge is longer
+                # than 1, so leaving that edge in the graph changes the geodesic distance of its pair
+                row[:] = rng.integers(1 + int(np.ceil(0.6 * r)), r + 1, size=row.shape).astype(float)
+                a, b = sorted(int(x) for x in rng.choice(n, size=2, replace=False))
+                rest = [x for x in range(n) if x not in (a, b)]
+                c, d = sorted(rest[:2])
+                row[(iu0[0] == a) & (iu0[1] == b)] = float(1 + r)
+                row[(iu0[0] == c) & (iu0[1] == d)] = 1.0
+            else:
+                row[:] = rng.integers(1, r + 2, size=row.shape).astype(float)
+                i, j = rng.choice(len(row), size=2, replace=False)
+                row[i], row[j] = 1.0, float(1 + r)
+        meta['kind'] = 'int_range'
     if tname == 'rank':
         params['method'] = gen.pick(rng, ['average', 'min', 'max', 'dense', 'ordinal'])
     if tname == 'geotopological':
